@@ -36,6 +36,7 @@ struct Shared {
     cmds: Vec<VecDeque<Cmd>>, // index = host (1-based; slot 0 unused)
     warm: u64,                // warm-up offset in ms (one tick)
     next_id: u64,             // message ids are issued in send order
+    ipv6: bool,
 }
 
 fn hname(h: usize) -> String {
@@ -101,7 +102,12 @@ fn apply_ctl_sim(sim: &turmoil::Sim<'_>, op: &str, a: usize, b: usize) {
 }
 
 async fn puppet(h: usize, shared: Rc<RefCell<Shared>>, notify: Rc<Notify>) -> turmoil::Result {
-    let sock = turmoil::net::UdpSocket::bind((IpAddr::V4(Ipv4Addr::UNSPECIFIED), PORT)).await?;
+    let any = if shared.borrow().ipv6 {
+        IpAddr::V6(std::net::Ipv6Addr::UNSPECIFIED)
+    } else {
+        IpAddr::V4(Ipv4Addr::UNSPECIFIED)
+    };
+    let sock = turmoil::net::UdpSocket::bind((any, PORT)).await?;
     let warm = shared.borrow().warm;
     loop {
         notify.notified().await;
@@ -165,6 +171,8 @@ struct Cfg {
     random_order: bool,
     seed: u64,
     curve: Option<f64>, // Sim::set_message_latency_curve (lambda of the exponential distribution)
+    ipv6: bool,
+    runtime_fail: bool, // the run may call the runtime fail-rate setters
 }
 
 fn pair(a: usize, b: usize) -> (usize, usize) {
@@ -188,6 +196,9 @@ impl<'a> Run<'a> {
         if cfg.random_order {
             b.enable_random_order();
         }
+        if cfg.ipv6 {
+            b.ip_version(turmoil::IpVersion::V6);
+        }
         let mut sim = b.build();
         if let Some(l) = cfg.curve {
             sim.set_message_latency_curve(l);
@@ -196,6 +207,7 @@ impl<'a> Run<'a> {
             cmds: (0..=cfg.n).map(|_| VecDeque::new()).collect(),
             warm: cfg.tick,
             next_id: 0,
+            ipv6: cfg.ipv6,
         }));
         let mut notifies = vec![Rc::new(Notify::new())];
         let mut ip2h = BTreeMap::new();
@@ -209,7 +221,7 @@ impl<'a> Run<'a> {
         // warm-up step: every puppet binds its socket and parks on its Notify
         sim.step().expect("warm-up step");
         rec::take();
-        rec::emit(json!({"ev":"reset","fail":cfg.fail > 0.0}));
+        rec::emit(json!({"ev":"reset","fail":cfg.fail > 0.0 || cfg.runtime_fail}));
         Run {
             sim,
             shared,
@@ -336,6 +348,51 @@ impl<'a> Run<'a> {
         hit
     }
 
+    /// LinkIter::deliver_all on link (a, b): every message of the link, in queue order.
+    fn manual_all(&mut self, a: usize, b: usize) -> usize {
+        let ip2h = &self.ip2h;
+        let mut ids = Vec::new();
+        self.sim.links(|links| {
+            for link in links {
+                let (x, y) = link.pair();
+                let (x, y) = (ip2h[&x.to_string()], ip2h[&y.to_string()]);
+                if pair(x, y) != pair(a, b) {
+                    continue;
+                }
+                // read the ids first (a second pass over Sim::links), then deliver the whole link at once
+                let _ = &link;
+            }
+        });
+        for (x, y, l) in self.links() {
+            if pair(x, y) == pair(a, b) {
+                ids = l;
+            }
+        }
+        self.sim.links(|links| {
+            for link in links {
+                let (x, y) = link.pair();
+                let (x, y) = (ip2h[&x.to_string()], ip2h[&y.to_string()]);
+                if pair(x, y) == pair(a, b) {
+                    link.deliver_all();
+                }
+            }
+        });
+        let (a, b) = pair(a, b);
+        for (i, id) in ids.iter().enumerate() {
+            rec::emit(json!({"ev":"manual","a":a,"b":b,"k":i + 1,"id":id}));
+        }
+        ids.len()
+    }
+
+    /// Runtime fail-rate setters (Sim::set_fail_rate / Sim::set_link_fail_rate); not an event of the
+    /// specs: the run is flagged `fail` from the start when it may use them.
+    fn set_fail(&mut self, link: Option<(usize, usize)>, rate: f64) {
+        match link {
+            Some((a, b)) => self.sim.set_link_fail_rate(hname(a), hname(b), rate),
+            None => self.sim.set_fail_rate(rate),
+        }
+    }
+
     fn step(&mut self, per_host: Vec<Vec<Cmd>>) {
         for (h, cmds) in per_host.into_iter().enumerate() {
             if h == 0 {
@@ -372,6 +429,7 @@ fn postprocess(raw: Vec<Value>, run: &Run<'_>, cfgs: &mut CfgMirror) -> Vec<Valu
     let mut cur_send: Option<Value> = None;
     let host_of = |addr: &str| -> usize {
         let ip = addr.rsplit_once(':').map(|x| x.0).unwrap_or(addr);
+        let ip = ip.trim_start_matches('[').trim_end_matches(']');
         *run.ip2h.get(ip).unwrap_or(&0)
     };
     for e in raw {
@@ -651,6 +709,8 @@ fn main_replay(args: &[String]) {
         random_order: false,
         seed: 1,
         curve: None,
+        ipv6: false,
+        runtime_fail: false,
     };
     let text = std::fs::read_to_string(&inp).expect("read behaviours");
     let mut total = 0u64;
@@ -737,7 +797,10 @@ fn main_random(args: &[String]) {
                 seed: seed.wrapping_mul(1000).wrapping_add(r),
                 // distribution parameter: flat curves put most samples at the upper end of the range
                 curve: if rng.random_bool(0.5) { Some([0.2, 1.0, 20.0][rng.random_range(0..3)]) } else { None },
+                ipv6: rng.random_bool(0.3),
+                runtime_fail: fail_on && rng.random_bool(0.5),
             };
+            let runtime_fail = cfg.runtime_fail;
             let mut run = Run::new(&cfg);
             let mut mirror = CfgMirror { gmin, gmax, lover: BTreeMap::new() };
             let mut raw: Vec<Value> = rec::take();
@@ -770,6 +833,22 @@ fn main_random(args: &[String]) {
                     } else {
                         run.ctl(op, a, b);
                     }
+                    nctl += 1;
+                }
+                if runtime_fail && rng.random_bool(0.2) {
+                    // fail rates changed while the run is in progress, globally or for one link
+                    let rate = [0.0, 0.1, 0.4][rng.random_range(0..3)];
+                    if rng.random_bool(0.5) {
+                        let a = rng.random_range(1..=n);
+                        run.set_fail(Some((a, a % n + 1)), rate);
+                    } else {
+                        run.set_fail(None, rate);
+                    }
+                }
+                if mode == "hold" && rng.random_bool(0.1) {
+                    // LinkIter::deliver_all on a random link
+                    let a = rng.random_range(1..=n);
+                    run.manual_all(a, a % n + 1);
                     nctl += 1;
                 }
                 if mode == "hold" && rng.random_bool(0.3) {
